@@ -486,6 +486,9 @@ class Exec:
                     items.extend(st.heap[v.sid].items)
                 elif isinstance(v, (Tup, tuple)):
                     items.extend(v)
+                elif isinstance(v, ARef) and self.arr(st, v).rank == 1 and z3.is_int_value(z3.simplify(self.arr(st, v).shape[0])):
+                    d = self.arr(st, v)
+                    items.extend(self.sel1(d, z3.IntVal(j)) for j in range(z3.simplify(d.shape[0]).as_long()))
                 else:
                     raise Undecided("* of a sequence that is not concrete in a list display")
             else:
@@ -986,7 +989,9 @@ class Exec:
         if isinstance(v, OpaqueV):
             return OpaqueV(v.name + "[...]")
         if isinstance(v, ModV) and "__getitem__" in v.attrs:
-            return self.call(st, v.attrs["__getitem__"], [v, self.ev(sl, st)], {}, e)       # an external object whose model says what indexing it yields
+            has_slice = any(isinstance(x, ast.Slice) for x in ast.walk(sl))
+            key = OpaqueV("slice") if has_slice else self.ev(sl, st)
+            return self.call(st, v.attrs["__getitem__"], [v, key], {}, e)       # an external object whose model says what indexing it yields
         if isinstance(v, MaskedV):
             d = self.arr(st, v.arr)
             if d.rank == 2 and isinstance(sl, ast.Tuple) and len(sl.elts) == 2 and isinstance(sl.elts[0], ast.Slice) and not isinstance(sl.elts[1], ast.Slice):
@@ -1536,6 +1541,8 @@ class Exec:
                 # otherwise read-only)
                 self.k.sobj_setattr(self, st, o, tgt.attr, val, node)
                 return
+            if isinstance(o, OpaqueV):
+                return           # a setting of an opaque library object (display cosmetics): no effect on anything modelled
             if not isinstance(o, ORef):
                 raise Undecided("attribute store on non-object")
             od = st.heap[o.oid]
